@@ -19,6 +19,9 @@ def gen_expr(rng, depth, names):
             return ("var", rng.choice(names))
         return ("lit", R.big_int(rng))
     k = rng.random()
+    if k < 0.08:
+        # an accumulator seeded with an existing value and updated by augmented assignment; the seed is used again afterwards
+        return ("aug", rng.choice(["+", "-", "*"]), gen_expr(rng, min(depth - 1, 1), names), gen_expr(rng, depth - 1, names))
     if k < 0.6:
         return ("bin", rng.choice(["+", "-", "*"]), gen_expr(rng, depth - 1, names), gen_expr(rng, depth - 1, names))
     if k < 0.7:
@@ -44,6 +47,11 @@ def build(e, env, lit):
         return ops[e[1]](build(e[2], env, lit), build(e[3], env, lit))
     if e[0] == "neg":
         return -build(e[1], env, lit)
+    if e[0] == "aug":
+        seed = build(e[2], env, lit)
+        acc = seed
+        acc = {"+": operator.iadd, "-": operator.isub, "*": operator.imul}[e[1]](acc, build(e[3], env, lit))
+        return acc - seed
     c = build(e[1], env, lit)
     return c.if_else(build(e[2], env, lit), build(e[3], env, lit))
 
@@ -60,6 +68,8 @@ def exact(e, vals):
         return ops[e[1]](exact(e[2], vals), exact(e[3], vals))
     if e[0] == "neg":
         return -exact(e[1], vals)
+    if e[0] == "aug":
+        return ops[e[1]](exact(e[2], vals), exact(e[3], vals)) - exact(e[2], vals)
     return exact(e[2], vals) if exact(e[1], vals) else exact(e[3], vals)
 
 
@@ -72,6 +82,8 @@ def show(e):
         return f"({show(e[2])} {e[1]} {show(e[3])})"
     if e[0] == "neg":
         return f"(-{show(e[1])})"
+    if e[0] == "aug":
+        return f"(seed := {show(e[2])}; acc = seed; acc {e[1]}= {show(e[3])}; acc - seed)"
     return f"{show(e[1])}.if_else({show(e[2])}, {show(e[3])})"
 
 
